@@ -15,12 +15,13 @@ THOROUGH_BUDGET = 1500
 RULE = ('one run = one simulated hand on every variant plus user-defined street lists (hole and board cards on the same '
         'street, draw streets with mixed facings, no-burn streets, 5-card stud, stud hi/lo), 2-9 players, 1-2 boards, a '
         'randomised dealer schedule (1..k cards per call, explicit dealee among those with cards pending, engine-chosen / '
-        'counted / explicit cards), fold and all-in patterns, deck-exhausting tables (8-handed stud). A dealing model '
+        'counted / explicit cards), fold and all-in patterns, deck-exhausting tables (8-handed stud, and 9-handed, where two successive streets fall back). A dealing model '
         'derived from the street definitions (ref/deal.py) follows the log: burn first iff prescribed, only live '
         'players with cards pending are dealt, the prescribed facings in order, the default dealee is the round-robin '
         'one, boards are filled to exactly the prescribed count, discards are held cards and replacements equal them in '
         'number and facing, nothing else is logged before the street is completely dealt, and the stud fallback to '
-        'shared board cards happens exactly when the cards not in play cannot cover the street; at every betting decision '
+        'shared board cards happens exactly when the cards not in play cannot cover the street, after which every board holds the '
+        'prescribed cards plus the cards of the streets that fell back; at every betting decision '
         'the hands (cards and facings) equal the model\'s. non-trivial = >= 2 dealing phases; distinct = distinct '
         '(configuration class, dealer mode, operation-class sequence) digests')
 ASSUMPTIONS = [
@@ -107,6 +108,12 @@ class DealMonitor(Monitor):
             got = [len(list(st.get_board_cards(b))) for b in st.board_indices]
             if m.fallbacks == 0 and any(g != want_board for g in got):
                 raise Violation(self.prefix + '.board', f'at a betting decision the boards hold {got} cards, prescribed {want_board}', rule='board')
+            if m.fallbacks and any(g != want_board + m.fallback_cards for g in got):
+                # stud streets dealt as shared board cards: every board holds the prescribed cards plus one card per
+                # hole card of each street that fell back
+                raise Violation(self.prefix + '.board', f'at a betting decision the boards hold {got} cards; prescribed {want_board} plus '
+                                f'{m.fallback_cards} dealt as shared cards on {m.fallbacks} street(s) the deck could not cover; '
+                                f'board_cards {st.board_cards}', rule='board', fallback_streets=m.fallbacks)
 
 
 def run(ch, ctx):
@@ -114,6 +121,8 @@ def run(ch, ctx):
     if ch.chance('c10.exhaust', 1, 4):
         bias['variants'] = EXHAUST
         bias['min_players'] = 7
+        # nine-handed stud (the repository's own tests seat nine at razz): two successive streets can then fall back
+        bias['max_players_by_variant'] = {'F7S': 9, 'F7S8': 9, 'FR': 9}
     if ch.chance('c10.refused_street', 1, 40):
         bias['variants'] = ('XHD',)         # a street with hole cards and a draw together: must be refused (aborted run)
         ctx.count('refused_street_list_tried')
